@@ -32,6 +32,36 @@ EXPORTED = {          # the public names through which each property is observed
 EXPORTED["C17"] = EXPORTED["C16"]
 
 
+ANCHOR_FILES = {      # where the functions a property's rules take apart live (C16 / C17 judge decorators through the call graph)
+    "C02": ["a5/core/cell.py", "a5/core/coordinate_transforms.py", "a5/projections/dodecahedron.py"],
+    "C05": ["a5/core/serialization.py"], "C06": ["a5/core/serialization.py"],
+    "C08": ["a5/core/compact.py", "a5/core/serialization.py"], "C09": ["a5/core/compact.py", "a5/core/serialization.py"],
+    "C10": ["a5/core/compact.py", "a5/core/serialization.py"],
+    "C12": ["a5/core/cell.py", "a5/core/tiling.py", "a5/geometry/pentagon.py"],
+    "C15": ["a5/projections/authalic.py", "a5/core/coordinate_transforms.py"],
+    "C19": ["a5/core/hex.py"], "C20": ["a5/core/cell_info.py", "a5/core/serialization.py", "a5/core/compact.py"],
+}
+
+
+def _decorated_anchors(ctx, prop: str) -> None:
+    """The structural rules read the body of a function.  A decorator that is not one of the standard value-preserving ones
+    (sa/core.py BENIGN_DECORATORS) can do anything to arguments and result before and after that body: every function of the
+    property's anchor files that carries one is reported as an undecided obligation, whatever the rules concluded from the body."""
+    import ast as _ast
+    from sa import core as _core
+    for rel in ANCHOR_FILES.get(prop, []):
+        try:
+            tree = ctx.sources.tree(rel)
+        except _core.AnalysisError:
+            continue
+        for n in _ast.walk(tree):
+            if isinstance(n, _ast.FunctionDef):
+                op = _core.opaque_decorators(n)
+                if op:
+                    ctx.unk(f"{prop}.0", f"{rel.replace('/', '.')[:-3]}.{n.name} is wrapped by {', '.join(op)}", f"{rel}:{n.lineno}",
+                            "the rules read the function body; what the decorator does with arguments and result before and after it is not analysed")
+
+
 def _exported_as_analysed(ctx, prop: str) -> None:
     """The rules analyse the functions of a5.core.*; users call what a5/__init__.py exports.  If an exported name is no longer a
     plain import of the core function (a wrapper or another object defined in a5/__init__.py), what the rules decided says
@@ -53,7 +83,41 @@ def _exported_as_analysed(ctx, prop: str) -> None:
             for t in (n.targets if isinstance(n, _ast.Assign) else [n.target]):
                 if isinstance(t, _ast.Name):
                     defined[t.id] = n
+    # names imported into a5/__init__.py (possibly under an alias): alias -> (module, original name)
+    origin = {}
+    for n in tree.body:
+        if isinstance(n, _ast.ImportFrom) and n.module:
+            for a in n.names:
+                origin[a.asname or a.name] = (("a5." + n.module) if n.level == 1 else n.module, a.name)
+
+    def pure_delegation(fn, name) -> bool:
+        """def name(a, b=..): [docstring] return core_fn(a, b)  -- same parameters, same order, nothing else; the callee is the
+        core function of the same name, and the defaults are the callee's own (checked textually against the core signature)"""
+        if not isinstance(fn, _ast.FunctionDef) or fn.decorator_list or fn.args.vararg or fn.args.kwarg or fn.args.kwonlyargs or fn.args.posonlyargs:
+            return False
+        body = [st for st in fn.body if not (isinstance(st, _ast.Expr) and isinstance(st.value, _ast.Constant) and isinstance(st.value.value, str))]
+        if len(body) != 1 or not isinstance(body[0], _ast.Return) or not isinstance(body[0].value, _ast.Call):
+            return False
+        call = body[0].value
+        if not isinstance(call.func, _ast.Name) or call.func.id not in origin or origin[call.func.id][1] != name or call.keywords:
+            return False
+        params = [a.arg for a in fn.args.args]
+        if [a.id if isinstance(a, _ast.Name) else None for a in call.args] != params:
+            return False
+        mod = origin[call.func.id][0]
+        try:
+            rel = mod.replace(".", "/") + ".py"
+            target = ctx.sources.func(rel, name)
+        except _core.AnalysisError:
+            return False
+        t_params = [a.arg for a in target.args.args]
+        if t_params[:len(params)] != params or len(t_params) != len(params) or target.args.kwonlyargs or target.args.vararg or target.args.kwarg:
+            return False
+        return [_ast.dump(d) for d in fn.args.defaults] == [_ast.dump(d) for d in target.args.defaults]
+
     for name in EXPORTED.get(prop, []):
+        if name in defined and pure_delegation(defined[name], name):
+            continue
         if name in defined:
             n = defined[name]
             ctx.unk(f"{prop}.0", f"a5.{name} is defined in a5/__init__.py, not imported from a5.core", f"a5/__init__.py:{n.lineno}",
@@ -94,6 +158,7 @@ def main(argv=None) -> int:
                 raise
             ctx.unk(f"{prop}.0", f"analysis stopped: {type(e_).__name__}", "", f"{e_}: the obligations not listed above are not decided")
         _exported_as_analysed(ctx, prop)
+        _decorated_anchors(ctx, prop)
         if args.tier == "thorough" and not args.no_selftest and not os.environ.get("A5_NO_SELFTEST") and not args.replay:
             # self-validation battery on scratch copies of the current tree; never changes the exit code
             try:
